@@ -173,3 +173,50 @@ def read_loops(m, meta):
         os.close(master)
         os.close(slave)
     return {"reproduced": bool(problems), "input": "scripted reply streams on a pty", "observed": [repr(p)[:300] for p in problems[:3]]}
+
+
+def unread(m, meta):
+    """a scripted terminal on a pty answers the colour queries at once and the DA1 query a little later (well within the time-out):
+    after get_fg_bg_colors() / get_terminal_name_version() no reply bytes may be left unread"""
+    import os, pty, select, threading, time
+    import term_image
+    import term_image.utils as U
+    problems = []
+    for fn_name, first, delay in (("get_fg_bg_colors", b"\x1b]10;rgb:ffff/0000/0000\x1b\\\x1b]11;rgb:0000/0000/ffff\x1b\\", 0.03),
+                                  ("get_fg_bg_colors", b"\x1b]10;rgb:ffff/0000/0000\x07\x1b]11;rgb:0000/0000/ffff\x07", 0.0),
+                                  ("get_terminal_name_version", b"\x1bP>|kitty(0.31.0)\x1b\\", 0.03)):
+        master, slave = pty.openpty()
+        saved = (U._tty_fd, U._query_timeout)
+        stop = threading.Event()
+
+        def terminal():
+            buf = b""
+            while not stop.is_set():
+                r, _, _ = select.select([master], [], [], 0.02)
+                if r:
+                    buf += os.read(master, 1024)
+                    if buf.endswith(b"\x1b[c"):          # the DA1 query closes the request
+                        os.write(master, first)
+                        time.sleep(delay)
+                        os.write(master, b"\x1b[?62;22c")
+                        buf = b""
+        th = threading.Thread(target=terminal, daemon=True)
+        try:
+            U._tty_fd = slave
+            U._query_timeout = 0.5
+            term_image.enable_queries()
+            th.start()
+            fn = getattr(U, fn_name)
+            fn = getattr(fn, "__wrapped__", fn)
+            got = fn()
+            time.sleep(0.15)
+            left = U.read_tty() or b""
+            if left:
+                problems.append({"function": fn_name, "replies": first[:24], "DA1 delayed by (s)": delay, "result": repr(got)[:60], "left unread": left})
+        finally:
+            stop.set()
+            th.join(1)
+            U._tty_fd, U._query_timeout = saved
+            os.close(master)
+            os.close(slave)
+    return {"reproduced": bool(problems), "input": "scripted terminal on a pty, DA1 reply delayed", "observed": [repr(p)[:300] for p in problems[:2]]}
